@@ -96,8 +96,11 @@ Record task := { t_nid : nat; t_state : TaskState; t_prev : option nat;
                  t_evproc : bool; t_silent : bool; t_hooks : list (levt * aspec);
                  t_data : vars; t_exposed : list key }.
 
+(* how a task came to be created: through the `next` link of its predecessor (the next step of a sequence, the next act
+   of a step), or any other way (a child of a running task, catch / timeout steps, hook acts, push, redo, the root) *)
+Inductive via := VNext | VOther.
 Inductive ev :=
-| ENew (tid nid : nat) (prev : option nat) (at_ : Z)
+| ENew (tid nid : nat) (prev : option nat) (at_ : Z) (via : via)
 | ETrans (tid : nat) (o n : TaskState) (at_ : Z) (site : nat)
 | EMsg (tid : nat) (s : TaskState) (ins outs : vars)
 | EProc (s : TaskState) (outs : vars)
@@ -215,10 +218,13 @@ Definition set_exposed e i (ks : list key) : eng := tmod e i (fun t => tset_expo
 
 Definition new_task nid prev : task := Build_task nid SNone prev None false [] 0 0 [] [] false false [] [] [].
 (* Process::create_task + Runtime::push *)
-Definition sched e nid prev : eng :=
+Definition sched_v (v : via) e nid prev : eng :=
   let tid := length (tasks e) in
   let e1 := with_rows (with_tasks e (tasks e ++ [new_task nid (Some prev)])) (rows e ++ [Some (new_task nid (Some prev))]) in
-  add_ev (with_queue e1 (queue e1 ++ [tid])) (ENew tid nid (Some prev) (clock e)).
+  add_ev (with_queue e1 (queue e1 ++ [tid])) (ENew tid nid (Some prev) (clock e) v).
+Definition sched := sched_v VOther.
+(* ctx.sched_task(next) in the next / review functions of step.rs and act.rs *)
+Definition sched_next := sched_v VNext.
 
 (* Task::parent : climb the prev links until a task of a lower level *)
 Fixpoint parent_from (f : nat) e (lvl : nat) (p : option nat) : option nat :=
@@ -507,13 +513,13 @@ with next (f : nat) (cv : vars) (e : eng) (i : nat) {struct f} : eng :=
               if forallb (fun j => is_completed (st e' j)) (children e' i) then
                 let e'' := if negb (is_completed (st e' i)) then set_state 12 e' i SCompleted else e' in
                 match n_next (tnode e'' i) with
-                | Some nx => (true, sched e'' nx i)
+                | Some nx => (true, sched_next e'' nx i)
                 | None => (flag, e'')
                 end
               else (flag, e')
             else if is s SSkipped || (isact && is s SCompleted) then
               match n_next (tnode e i) with
-              | Some nx => (true, sched e nx i)
+              | Some nx => (true, sched_next e nx i)
               | None => (false, e)
               end
             else (false, e)
@@ -561,14 +567,14 @@ with review (f : nat) (cv : vars) (from : nat) (e : eng) (i : nat) {struct f} : 
                 if forallb (fun j => is_completed (st e' j)) (children e' i) then
                   let e'' := if negb (is_completed (st e' i)) then set_state 16 e' i SCompleted else e' in
                   match n_next (tnode e'' i) with
-                  | Some nx => (false, sched e'' nx i)
+                  | Some nx => (false, sched_next e'' nx i)
                   | None => (true, e'')
                   end
                 else (false, e')
             end
           else if is before SSkipped then
             match n_next (tnode e i) with
-            | Some nx => (false, sched e nx i)
+            | Some nx => (false, sched_next e nx i)
             | None => (true, e)
             end
           else (false, e)
@@ -582,7 +588,7 @@ with review (f : nat) (cv : vars) (from : nat) (e : eng) (i : nat) {struct f} : 
                 if Nat.eqb n (length ch) then
                   let e'' := if negb (is_completed (st e i)) then set_state 18 e i SCompleted else e in
                   match n_next (tnode e'' i) with
-                  | Some nx => (false, sched e'' nx i)
+                  | Some nx => (false, sched_next e'' nx i)
                   | None => (true, e'')
                   end
                 else (false, e)
@@ -892,7 +898,7 @@ Definition do_action (e : eng) (i : nat) (a : action) (opts : vars) : eng :=
 (* Process::start : the process runs, its row is written, the root task is queued *)
 Definition start (ns : list node) (clock0 : Z) : eng :=
   add_ev {| nodes := ns; tasks := [new_task 0 None]; rows := [Some (new_task 0 None)]; queue := [0]; trace := [];
-            oof := false; exn := false; pstate := SRunning; prow := Some SRunning; clock := clock0 |} (ENew 0 0 None clock0).
+            oof := false; exn := false; pstate := SRunning; prow := Some SRunning; clock := clock0 |} (ENew 0 0 None clock0 VOther).
 
 (* ---------- operations ---------- *)
 Inductive op :=
